@@ -70,7 +70,7 @@ CHECKS = {
              "not modelled; negative operands of mod and inexact division are outside the reference evaluator.",
         ref="DESIGN.md section 4 C18"),
     "C04": dict(
-        technique="Coq model of the expander on encoded text + clause theorems; output correspondence and reference-semantics oracle",
+        technique="Coq model of the expander on encoded text + refinement theorem to the fuel-free transclusion rule on flat calls + clause theorems; output correspondence and reference-semantics oracle",
         text="Model/Expand.v transcribes expand_args/expand_recurse/argument binding/#if/#ifeq/#switch/add_newline/finalize on "
              "the cookie representation and is compared, output for output, with Wtp.expand on generated acyclic libraries and "
              "pages (the encoded ASTs are read back from the implementation's cookie table). Proved for all inputs: the argument "
@@ -78,8 +78,17 @@ CHECKS = {
              "c04_includable_part: Model/Body.v (_template_to_body as six scanner passes, compared with the implementation on "
              "generated tag soups incl. case/blank variants and unclosed tags) yields the documented includable part for every "
              "arrangement of comments, noinclude, includeonly and onlyinclude elements with bracket-free texts. "
-             "PARTIAL: equality with the independent MediaWiki reference semantics is decided per run by harness/gen_wt.py:Ref, "
-             "not by a refinement theorem; _template_to_body is exercised through include wrappers, not modelled.",
+             "c04_flat_calls_follow_the_transclusion_rule (Model/FlatCall.v, Proofs/FlatCallProofs.v): for every library and "
+             "every call with plain name and arguments to a template of text and parameter references with plain names and "
+             "defaults (or to a missing template), for all sufficiently large fuel, the whole model - name expansion, parser-"
+             "function and loop detection, argument dictionary, both passes, newline rules, finalisation - returns exactly the "
+             "documented rule (unnamed arguments numbered and verbatim, named trimmed, last binding wins, defaults, literal "
+             "undefined parameters, link for a missing template, newline before a block marker), stated without fuel or "
+             "expansion path; c04_flat_rule_is_mediawikis_without_trailing_line_breaks and ..._refuted pin the known "
+             "trailing-newline deviation as the only gap on that fragment; the rule is also compared directly with Wtp.expand "
+             "on generated flat calls. "
+             "PARTIAL: beyond the flat fragment (nested calls, parser functions, links) equality with the independent MediaWiki "
+             "reference semantics is decided per run by harness/gen_wt.py:Ref, not by a refinement theorem.",
         note=TRUST + "regex-based _encode/preprocess_text/_template_to_body are glue under the diff; ASCII whitespace; "
              "parser function name table regenerated from the live module.",
         ref="DESIGN.md section 4 C04"),
@@ -161,7 +170,7 @@ CHECKS = {
         note=TRUST + "tokenizer and inline handlers are glue under the diff.",
         ref="DESIGN.md section 4 C02"),
     "C01": dict(
-        technique="Coq well-formedness function evaluated on every returned tree + proofs about the string-merging primitive; totality by execution",
+        technique="Coq invariant proofs over the parser's primitive stack operations (any handler behaviour) tied by replaying recorded runs + Coq well-formedness function evaluated on every returned tree; totality by execution",
         text="PARTIAL. Proved for all inputs: _parser_merge_str_children (modelled generically) leaves no adjacent or empty "
              "strings, keeps nodes in order and keeps exactly the finalised run texts (c01_merge_*), and the model agrees with "
              "the real function on generated child lists. Decided by execution: parse() returns, leaves parser_stack empty, and "
@@ -172,9 +181,20 @@ CHECKS = {
              "c01_table_handlers_keep_the_stack_well_formed: for the table handlers (Model/Tables.v, tied to the parser by C03's "
              "check on written tables and token soups) the table clause of wf is an invariant of the parser stack, so every tree "
              "they return for ANY sequence of table tokens and text has rows/captions directly under tables and cells directly "
-             "under rows, at every depth. The other token handlers and the tokenizer are not modelled, so there is no totality "
-             "theorem for parse().",
-        note=TRUST + "tree serialiser and string abstraction (empty / contains placeholder) trusted.",
+             "under rows, at every depth. Theorems c01_any_handler_behaviour_gives_a_well_formed_tree and "
+             "c01_every_primitive_operation_keeps_the_stack_well_formed (Model/Stack.v, Proofs/StackProofs.v): the primitive "
+             "operations through which every handler acts on the open-node stack - _parser_push, _parser_pop with its fix-ups "
+             "(empty bold/italic removal, args move, URL un-push, definition swap), _parser_merge_str_children and the handlers' "
+             "eight direct changes to the top node - keep for EVERY operation sequence, i.e. whatever the handlers and the "
+             "tokenizer decide, the clauses strings / root / argument shape / no-largs-on-other-kinds / definition-only-on-list-"
+             "items at every depth, and parse_encoded's closing loop ends with exactly the root open; the machine is tied to "
+             "parser.py by recording the operations of real runs (sys.settrace on every line of parser.py) and replaying them "
+             "inside Coq: the replayed tree must be the returned tree (1200+ runs, 38000+ operations per quick run). Which "
+             "operations a handler chooses (hence the list, table, level, sarg and attrs clauses beyond the table handlers) and "
+             "the tokenizer are not modelled, so there is no totality theorem for parse().",
+        note=TRUST + "tree serialiser and string abstraction (empty / contains placeholder) trusted; harness/stacktrace.py (the "
+             "recorder that names each change of the stack as a model operation) is untrusted - Coq compares its replay with the "
+             "returned tree.",
         ref="DESIGN.md section 4 C01"),
     "C03": dict(
         technique="Coq proofs (attribute maps written by to_attrs are read back exactly by the parse_attrs scanner model; the table "
